@@ -2,6 +2,7 @@
   (a) the witness crate: compile_fail witnesses with compiling twins (E7), macro-form witnesses, controls;
   (b) crate-wide sweeps of the generic rules (error discipline, who-may-call, sinks) over every local body of both
       configurations instead of only the call graph of the property's roots;
+  (d) the false-alarm self-test: every patch of equivalent/ that applies to the current tree must leave the quick check quiet;
   (c) the teeth check: every patch of mutants/ and seeded/ recorded for this property is applied to a scratch copy of
       /repo's *current* tree and the quick check must report it (a miss is a TEETH-MISS line and an evidence entry,
       never a property verdict).
@@ -96,6 +97,51 @@ def teeth(ctx, prop):
                  "detail": {n: (v + (": " + w if w else ""))[:240] for n, v, w in res}}
 
 
+def _one_quiet(prop, name, patch):
+    scratch = tempfile.mkdtemp(prefix="shpquiet-")
+    try:
+        repo = os.path.join(scratch, "repo")
+        shutil.copytree(factsmod.REPO, repo, ignore=shutil.ignore_patterns("target", ".git"))
+        r = subprocess.run(["patch", "-p1", "-s", "-F0", "-i", patch], cwd=repo, stdout=subprocess.PIPE, stderr=subprocess.STDOUT, text=True)
+        if r.returncode != 0:
+            return name, "skipped (does not apply exactly to the current tree)", ""
+        env = dict(os.environ, SHP_REPO=repo, SHP_OUT=os.path.join(scratch, "out"), VERIF_TIER="quick")
+        r = subprocess.run([os.path.join(VERIF, "bin", "check"), prop, "--tier", "quick"], env=env, stdout=subprocess.PIPE,
+                           stderr=subprocess.STDOUT, text=True)
+        if r.returncode == 0:
+            return name, "quiet", ""
+        if r.returncode == 2:
+            return name, "skipped (the refactored tree does not build in this configuration)", ""
+        why = [l.strip() for l in r.stdout.splitlines() if l.startswith("  rule")][:2]
+        return name, "ALARM", "; ".join(why)
+    finally:
+        shutil.rmtree(scratch, ignore_errors=True)
+
+
+def quiet_selftest(ctx, prop):
+    """false-alarm self-test: every recorded behaviour-preserving refactoring (equivalent/) that applies to the current tree is
+    applied to a scratch copy and the quick check must stay quiet.  An alarm is printed as FALSE-ALARM-SELFTEST and recorded in the
+    evidence; it is a statement about the checker, never a property verdict."""
+    ed = os.path.join(VERIF, "equivalent")
+    ps = []
+    if os.path.isdir(ed):
+        for d in sorted(os.listdir(ed)):
+            pp = os.path.join(ed, d, "patch.diff")
+            if os.path.exists(pp):
+                ps.append((d, pp))
+    res = []
+    with ThreadPoolExecutor(max_workers=4) as ex:
+        for f in [ex.submit(_one_quiet, prop, n, pp) for n, pp in ps]:
+            res.append(f.result())
+    alarms = [(n, w) for n, v, w in res if v == "ALARM"]
+    for n, w in alarms:
+        print("FALSE-ALARM-SELFTEST property=%s refactoring=%s %s (recorded in the evidence; not a property verdict)" % (prop, n, w[:160]))
+    ctx.extra["equivalence_selftest"] = {"applied": sum(1 for n, v, w in res if v in ("quiet", "ALARM")),
+                                         "quiet": sum(1 for n, v, w in res if v == "quiet"),
+                                         "alarms": [{"refactoring": n, "report": w[:240]} for n, w in alarms],
+                                         "skipped": [n for n, v, w in res if v.startswith("skipped")]}
+
+
 def sweeps(ctx, prop):
     """crate-wide versions of the generic rules, both configurations"""
     if prop in ("C12", "C13"):
@@ -169,3 +215,5 @@ def run(ctx, prop):
     sweeps(ctx, prop)
     # (c) teeth
     teeth(ctx, prop)
+    # (d) false-alarm self-test over the recorded behaviour-preserving refactorings
+    quiet_selftest(ctx, prop)
